@@ -16,10 +16,10 @@ SMTP = "mail/smtp.py"
 BASIC = "protocols/basic.py"
 TECHNIQUE = "finite evaluation of stuffing rewrite + CFG dominance / who-may-write on DATA mode"
 EXPLANATION = (
-    "Writer: the replace chain of SMTPClient.transformChunk is evaluated over every chunk (and, for a stateful transformer, "
-    "every chunking) of all words over {'.', LF, other} up to length 5 against the RFC 5321 4.5.2 reference (LF -> CRLF, a '.' "
-    "at line start doubled); a transformer that matches a multi-unit context pattern per chunk must carry state (today it "
-    "does not: known finding F40). finishedFileTransfer is evaluated for every kind of last byte; smtpState_data must wire "
+    "Writer: SMTPClient.transformChunk (any idiom: replace chain, precompiled class-level regex, carried state) is evaluated on "
+    "every chunking of all bodies over {'.', LF, other} up to length 4 against the RFC 5321 4.5.2 reference (LF -> CRLF, a '.' at "
+    "line start doubled): no '.' elsewhere may be doubled, no other byte changed, every line-start '.' whose line start lies inside "
+    "its chunk doubled; a line-start '.' that is the first byte of a chunk must be doubled too (today it is not: known finding F40). finishedFileTransfer is evaluated for every kind of last byte; smtpState_data must wire "
     "both into FileSender, whose resumeProducing must transform every chunk it writes and remember the last written byte. "
     "Reader: in SMTP.dataLineReceived the end-of-data actions are guarded by exactly line == b'.', exactly one leading '.' is "
     "stripped from other dot-lines, every other line reaches message.lineReceived(line); lineReceived dispatches state_<mode> "
